@@ -37,6 +37,8 @@ CONSTANTS DBs, RPs, Msts, Users, Hosts, SqlHosts,
           MaxGroups,  \* bound on shard groups per policy (<= 11: sort.Sort is an insertion sort up to 12)
           MaxVer,     \* bound on measurement versions
           MaxNodes,   \* bound on data nodes
+          SchemaCleanChoices, \* values of schema-clean-enable explored
+          MaxTail,    \* bound on commands applied between Snapshot and Restore
           Ops,        \* command types enabled in this configuration
           Depth, Dev, ImplDev, Track
 
@@ -69,7 +71,8 @@ InitCat == [nodes |-> <<>>,           \* DataNodes [id, host, conn]
             rgs |-> [d \in DBs |-> <<>>],   \* ReplicaGroups[db]: <<[id, master, peers, st]>>
             dbs |-> [d \in DBs |-> NoDb],
             users |-> <<>>,           \* [n, admin, privs: [DBs -> 0..3]]
-            maxSG |-> 0, maxSh |-> 0, maxMst |-> 0, maxIG |-> 0, maxIdx |-> 0]
+            maxSG |-> 0, maxSh |-> 0, maxMst |-> 0, maxIG |-> 0, maxIdx |-> 0,
+            sclean |-> FALSE]         \* configuration [meta] schema-clean-enable (default true), fixed per behaviour
 
 Cmd(op, db, rp, n, a, b, l) == [op |-> op, db |-> db, rp |-> rp, n |-> n, a |-> a, b |-> b, l |-> l]
 
@@ -358,8 +361,18 @@ AllSgIds(c) == {c.dbs[d].rps[r].sgs[i].id : <<d, r, i>> \in
 AllShIds(c) == UNION {{c.dbs[x[1]].rps[x[2]].sgs[x[3]].shards[j].id : j \in 1..Len(c.dbs[x[1]].rps[x[2]].sgs[x[3]].shards)} :
                   x \in {x \in DBs \X RPs \X (1..MaxGroups) : x[3] <= Len(c.dbs[x[1]].rps[x[2]].sgs)}}
 
+\* ... and, with schema-clean-enable, Data.SchemaClean: in a policy that lost a group every measurement
+\* whose schema is (now) empty is marked deleted through MarkMeasurementDelete(origin name), i.e. the
+\* current version, if database and policy are usable. Schemas are not modelled: they are always empty.
+PruneRpSC(c, d, r, id) ==
+  LET R == c.dbs[d].rps[r]
+      P == PruneRp(R, id)
+  IN IF c.sclean /\ Len(P.sgs) < Len(R.sgs) /\ c.dbs[d].ex /\ ~c.dbs[d].mark /\ R.ex /\ ~R.mark
+     THEN [P EXCEPT !.ms = {IF x.v = P.mv[x.n] /\ ~x.mark THEN [x EXCEPT !.mark = TRUE] ELSE x : x \in @}]
+     ELSE P
+
 PruneGroups(c, id, dv) ==
-  LET c2 == [c EXCEPT !.dbs = [d \in DBs |-> [c.dbs[d] EXCEPT !.rps = [r \in RPs |-> PruneRp(c.dbs[d].rps[r], id)]]]]
+  LET c2 == [c EXCEPT !.dbs = [d \in DBs |-> [c.dbs[d] EXCEPT !.rps = [r \in RPs |-> PruneRpSC(c, d, r, id)]]]]
   IN IF "prune_resets_counter" \in dv
      THEN Ok([c2 EXCEPT !.maxSG = Max({0} \cup AllSgIds(c2)), !.maxSh = Max({0} \cup AllShIds(c2))], {})
      ELSE Ok(c2, {})
@@ -483,7 +496,8 @@ NoSnap == [ph |-> "none", c |-> InitCat, ci |-> InitCat, img |-> InitCat, imgi |
 -----------------------------------------------------------------------------
 IDev == Dev \cup ImplDev
 
-Init == /\ cat = InitCat /\ catI = InitCat /\ used = {} /\ sn = NoSnap
+Init == /\ \E sc \in SchemaCleanChoices : cat = [InitCat EXCEPT !.sclean = sc]
+        /\ catI = cat /\ used = {} /\ sn = NoSnap
         /\ flags = [reused |-> FALSE, noop |-> TRUE, panic |-> FALSE]
         /\ catB = InitCat /\ catBI = InitCat /\ hist = <<>>
 
@@ -503,6 +517,7 @@ Entry(cmd, r, ri, b, bi) ==
 
 Do(cmd) ==
   /\ Protocol(cat, cmd)
+  /\ sn.ph \in {"taken", "persisted"} => Len(sn.tail) < MaxTail
   /\ \E r \in {Ap(cat, cmd, Dev)} :
      /\ r.r # "bound"
      /\ \E ri \in {IF Track THEN Ap(catI, cmd, IDev) ELSE r} :
@@ -557,11 +572,13 @@ Restore ==
   /\ UNCHANGED <<cat, catI, used, flags>>
 
 SnapOn == "Snapshot" \in Ops
+\* simulation configs override this to spread the snapshot over the behaviour
+SnapGate == TRUE
 
 Next ==
   /\ Len(hist) < Depth
   /\ \/ \E cmd \in CmdChoices : Do(cmd)
-     \/ (SnapOn /\ Snapshot)
+     \/ (SnapOn /\ SnapGate /\ Snapshot)
      \/ (SnapOn /\ Persist)
      \/ (SnapOn /\ Restore)
 
